@@ -389,7 +389,9 @@ class Response:
             if self.is_chunked():
                 chunk_size = "%X\r\n" % nbytes
                 self.sock.sendall(chunk_size.encode('utf-8'))
-            self.sock.sendfile(respiter.filelike, offset=offset, count=nbytes)
+            # keep the byte count the access log reports in step with write()
+            self.sent += self.sock.sendfile(respiter.filelike, offset=offset,
+                                            count=nbytes)
             if self.is_chunked():
                 self.sock.sendall(b"\r\n")
 
